@@ -72,6 +72,8 @@ def contexts(rng, tier):
         a6 = ADDRS6[i % len(ADDRS6)]
         ctx.append((a4[0], a4[1], sp, dp))
         ctx.append((a6[0], a6[1], sp, dp))
+        if i % 4 == 0:        # an IPv6 flow between the IPv4-mapped forms of the same two addresses, same ports
+            ctx.append(("::ffff:" + a4[0], "::ffff:" + a4[1], sp, dp))
     return ctx
 
 
